@@ -75,6 +75,33 @@ FOne == {"one"}
 ALAll == {"empty", "good", "bad"}
 ALSome == {"good", "bad"}
 
+\* ---- frame kinds / target restrictions ({} stands for "every account")
+FKOld == {"call", "create"}
+FKAll == {"call", "delegate", "callcode", "static", "create", "create2"}
+FKCalls == {"call", "delegate", "callcode", "static"}
+FKNew == {"delegate", "callcode", "static", "create2"}
+FKCallOnly == {"call"}
+AnyAcct == {}
+CTK == {"K1", "K2"}
+CTKF == {"K1", "K2", "F"}
+CTK2F == {"K2", "F"}
+TTK1 == {"K1"}
+BFK1 == {"K1"}
+BFK1F == {"K1", "F"}
+WPNone == {}
+WPAll == {"call", "create", "create2", "sd", "ETX", "CONVERT", "sstore", "log"}
+WPSome == {"call", "sd", "ETX"}
+OKEtxClaim == {"ETX", "CLAIM"}
+OKClaim == {"CLAIM"}
+OKEtxClaimUnwrap == {"ETX", "CLAIM", "UNWRAP"}
+DElig == {"elig"}
+DEligQi == {"elig", "qiown"}
+AZeroMin == {"zero", "min"}
+AZeroOne == {"zero", "one"}
+AZero == {"zero"}
+ALGood == {"good"}
+RB == {"B"}
+
 \* ---- conformance universes (the real protocol numbers; the driver uses every number verbatim)
 U == 1000000
 BalReal(E, K) == [a \in A(E, K) |-> CASE a \in E -> 60 * U [] a \in K -> 5 * U [] a = "Q" -> 50 * U [] a = "Z" -> 1 * U [] OTHER -> 0]
